@@ -256,6 +256,19 @@ class SymReal:
             return NotImplemented
         return sym_div(o, self)
 
+    def __mod__(self, o):
+        if self.t.is_int() and isinstance(o, (int, np.integer)) and int(o) > 0:
+            return SymReal(self.t % int(o))          # z3 integer mod, non-negative result (as Python's for a positive modulus)
+        raise SymError("unsupported %")
+
+    def __floordiv__(self, o):
+        if self.t.is_int() and isinstance(o, (int, np.integer)) and int(o) > 0:
+            return SymReal(self.t / int(o))          # z3 integer division by a positive constant = floor division
+        raise SymError("unsupported //")
+
+    def __index__(self):
+        raise SymError("symbolic value used as an index")
+
     def __pow__(self, n):
         if isinstance(n, (int, np.integer)) and int(n) >= 0:
             r = z3.RealVal(1)
@@ -335,7 +348,10 @@ class SymReal:
         return f"SymReal({self.t})"
 
     def __format__(self, spec):
-        raise SymError("format() of a symbolic value")
+        hook = getattr(ctx(), "format_hook", None) if _CTX else None
+        if hook is None:
+            raise SymError("format() of a symbolic value")
+        return hook(self, spec)
 
 
 COS = z3.Function("cos", z3.RealSort(), z3.RealSort())
